@@ -5,6 +5,9 @@
 package main
 
 import (
+	"log/slog"
+	"context"
+	"syscall"
 	"bufio"
 	"encoding/json"
 	"fmt"
@@ -168,10 +171,40 @@ func vSockets() int {
 }
 
 // TestVerifExecutor is inert unless VERIF_EXEC=1.
+// vLogTap records the messages the server logs (the outcome of a SIGHUP-triggered reload is only visible there).
+type vLogTap struct {
+	mu   sync.Mutex
+	msgs []string
+}
+
+func (h *vLogTap) Enabled(context.Context, slog.Level) bool { return true }
+func (h *vLogTap) Handle(_ context.Context, r slog.Record) error {
+	msg := r.Message
+	r.Attrs(func(a slog.Attr) bool {
+		if a.Key == "err" {
+			msg += " err=" + a.Value.String()
+		}
+		return true
+	})
+	h.mu.Lock()
+	h.msgs = append(h.msgs, msg)
+	h.mu.Unlock()
+	return nil
+}
+func (h *vLogTap) WithAttrs([]slog.Attr) slog.Handler { return h }
+func (h *vLogTap) WithGroup(string) slog.Handler      { return h }
+func (h *vLogTap) since(n int) []string {
+	h.mu.Lock()
+	defer h.mu.Unlock()
+	return append([]string(nil), h.msgs[n:]...)
+}
+
 func TestVerifExecutor(t *testing.T) {
 	if os.Getenv("VERIF_EXEC") != "1" {
 		t.Skip("executor mode off")
 	}
+	tap := &vLogTap{}
+	slog.SetDefault(slog.New(tap))
 	in := bufio.NewReaderSize(os.Stdin, 1<<20)
 	out := json.NewEncoder(os.Stdout)
 	var server *OutlineServer
@@ -217,6 +250,24 @@ func TestVerifExecutor(t *testing.T) {
 				resp.Err = err.Error()
 			} else {
 				resp.OK = true
+			}
+		case "sighup":
+			// the production trigger of a reload: the server re-reads the file it was started with
+			n0 := len(tap.since(0))
+			if err := syscall.Kill(os.Getpid(), syscall.SIGHUP); err != nil {
+				resp.Err = err.Error()
+				break
+			}
+			// the handler logs the outcome: "Loaded config." or "Failed to update server..."
+			resp.Err = "no outcome logged"
+			for t0 := time.Now(); time.Since(t0) < 10*time.Second && resp.Err == "no outcome logged"; time.Sleep(time.Millisecond) {
+				for _, m := range tap.since(n0) {
+					if strings.HasPrefix(m, "Loaded config") {
+						resp.OK, resp.Err = true, ""
+					} else if strings.HasPrefix(m, "Failed to update server") {
+						resp.Err = "reload failed (logged): " + m
+					}
+				}
 			}
 		case "stop":
 			if server == nil {
